@@ -19,7 +19,7 @@ COMPONENTS = {"real": ["partition codecs, PicklePartition, InMemoryPartition, On
 REACH = ["calls_with_write_fault", "passed_through_calls", "merged_calls", "parent_fresh", "parent_from_cache", "parent_from_disk", "ondisk_levels", "after_restart_served", "chains_len3plus"]
 
 LEVELS = 5
-KEYS = ["a", "b", "c", "d", "e", "f"]
+KEYS = ["a", "b", "c", "d", "e", "f", "k#1", "C#", "x y", "\u00fc", "a.b", "p%q"]     # also keys that need escaping in a path / look like separators
 VKINDS = ["none", "int", "str", "float", "list", "dict", "arr-int64", "arr-float64", "frame", "series", "none", "bytes", "date", "nested-partition", "true",
           "bare-i1", "bare-f1", "bare-true", "bare-f0", "bare-nf0", "bare-i0", "bare-dn", "bare-ts", "bare-s"]
 BARE = {"bare-i1": lambda: 1, "bare-f1": lambda: 1.0, "bare-true": lambda: True, "bare-f0": lambda: 0.0, "bare-nf0": lambda: -0.0,
@@ -51,7 +51,10 @@ def gen_case(seed):
         levels.append({"type": rng.choice(["inmemory", "inmemory", "ondisk"]), "own": own,
                        "merge": i > 0 and rng.random() < 0.85,
                        # the mapping an in-memory partition is built from (the documentation's own example uses a defaultdict)
-                       "mapping": rng.choice(["dict", "dict", "defaultdict", "ordered", "chainmap"])})
+                       "mapping": rng.choice(["dict", "dict", "defaultdict", "ordered", "chainmap"]),
+                       # the partition is returned through a KeyOverrideResult (its value objects then live under
+                       # <override key>/<partition key>)
+                       "override": rng.random() < 0.2})
     ops = []
     for _ in range(rng.randrange(2, 12)):
         r = rng.random()
@@ -136,6 +139,10 @@ def _segment(root, case, ops, first_index):
             if parent is not None and lv["merge"]:
                 p._merge_parent = parent
                 side.events.append(["parent", level, type(parent).__name__])
+            if lv.get("override"):
+                from twosigma.memento.result import KeyOverrideResult
+                side.events.append(["override", level])
+                return KeyOverrideResult(p, "ovr/L%d/x%d" % (level, x))
             return p
         builtins.__vpart__ = vpart
         mod = world.load_module("vc17", PROGRAM)
@@ -158,7 +165,7 @@ def _segment(root, case, ops, first_index):
                         rec["fault_fired"] = len(simfs.S.fired)
                         simfs.disarm()
                     tr = side.take()
-                    rec["runs"] = [t[0] for t in tr if t[0] != "parent"]
+                    rec["runs"] = [t[0] for t in tr if t[0] not in ("parent", "override", "mapping")]
                     rec["parents"] = [t[1:] for t in tr if t[0] == "parent"]
                     exp = expected(case, op[1], op[2])
                     chk = {"is_partition": isinstance(r, Partition), "type": type(r).__name__}
